@@ -21,7 +21,7 @@ int vprop_fork = 1;
 int vprop_cpu_limit_s = 60;
 const char *vprop_class_names[V_NCLASS] = {
   "crlf", "mixed_line_endings", "comments", "literal_operands", "float_literal", "hex_literal", "negative_literal", "L_suffix",
-  "type_names", "alignment", "multi_function", "n_m_directives", "x2_x4", "tabs", "two_d", "octal_size", "number_like_or_keyword_like_names", NULL
+  "type_names", "alignment", "multi_function", "n_m_directives", "x2_x4", "tabs", "two_d", "octal_size", "number_like_or_keyword_like_names", "align_zero_means_default", NULL
 };
 
 void vprop_init (int argc, char **argv) { (void) argc; (void) argv; orc_init (); }
@@ -167,6 +167,8 @@ static void print_program (Out *o, const ProgSpec *ps, const int *inline_const)
       case VK_DEST: case VK_SRC:
         oput (o, v->kind == VK_DEST ? ".dest" : ".source"); sp (o); num (o, v->size); sp (o); oput (o, "%s", v->name);
         if (v->align) { sp (o); oput (o, "align"); sp (o); num (o, v->align); o->r->classes |= 1u << 9; }
+        /* "align 0" asks for the default, like alignment 0 in orc_program_add_source_full (no choice is consumed) */
+        else if (v_mix64 ((uint64_t) i * 77u + (uint64_t) ps->nins * 13u + (uint64_t) v->size) % 6 == 0) { sp (o); oput (o, "align"); sp (o); oput (o, "0"); o->r->classes |= 1u << 17; }
         if (v->type_name[0]) { sp (o); oput (o, "%s", v->type_name); o->r->classes |= 1u << 8; }
         break;
       case VK_ACC:
@@ -303,7 +305,7 @@ void vprop_case (VChoices *c, VResult *r)
          (nan, inf, infinity), near misses, prefix and directive words, names of other variable classes.  Decided by the upper bits
          of the function-name choice so that streams recorded earlier keep decoding the same way */
       static const char *tricky[] = { "nan", "inf", "infinity", "info", "nano", "e1", "x2", "x4", "n", "m", "dest", "source", "temp",
-        "const", "param", "L", "f", "d9", "s9", "NAN", "INF", "Infinity", "nanx", "in", "i", "accumulator", "x", "ex", "p" };
+        "const", "param", "L", "f", "_bias", "_round", "_1", "_x", "d9", "s9", "NAN", "INF", "Infinity", "nanx", "in", "i", "accumulator", "x", "ex", "p" };
       uint32_t nraw = vc_u32 (c);
       snprintf (ps[f].name, sizeof ps[f].name, "fn_%d_%c", f, 'a' + (char) (nraw % 26));
       if ((nraw / 26) % 3 == 1) {
